@@ -477,3 +477,6 @@ Proof.
     destruct (drive_sim _ _ _ _ _ _ _ _ Hr Hfc Hop E1) as [[[R1 [R2 R3]] [R4 _]] _].
     exact (IH _ _ _ _ _ _ _ _ R1 R2 R3 R4 Hrest D1 D2).
 Qed.
+
+Lemma inv_upd_misc s le o : inv s -> inv (upd_misc s le o).
+Proof. intros [Hc [Hp [Ht Hl]]]. unfold inv, cursor_ok, pad_ok in *. fs. repeat split; assumption. Qed.
